@@ -35,12 +35,13 @@ func init() {
 	register(&Check{
 		ID:  "C26",
 		Run: runC26,
-		Explanation: "Decides the shape of the permission gate: (R1) the user-password-only success path of setupEncryptionKey returns through handlePermissions; in handlePermissions every success return is preceded by the true edge of hasNeededPermissions(ctx.Cmd, ctx.E) except on the edge where both passwords are empty; (R2) hasNeededPermissions returns false when a non-zero mask has no bit in P, for both maskExtract and maskModify, called with the same mode and with enc.R; each mask function reads the perm table entry for its mode argument, returns 0 only when the entry is absent or its extract/modify field is 0, and chooses between its two layouts by a revision test that is true for revisions 3,4,5,6 and false for revision 2 (evaluated on the comparison's constant and operator; a '>3' or '>=4' boundary is rejected); the two layout constants are non-zero, single-bit and different, and extract/modify masks of one layout differ; (R3) every pkg/api function that assigns a constant command mode to conf.Cmd and then hands conf to a reader does the assignment on every path before the read (an assignment moved inside `if conf == nil {…}` leaves a caller-supplied configuration with a stale mode, so the permission check runs for the wrong command). Extracted constants are recorded in evidence. (R4) the command mode under which the document is read is the one the operation was dispatched for: for every handler of cli.Dispatch (switches of the dispatch* functions and the dispatch table), every constant conf.Cmd stored by pkg/api code reachable from it is one of the handler's own modes, or a mode whose row of the permission table demands at least as much (rows extracted from the table's initialisation), or a listed alias; (R5) = C25.R4 (an owner authenticated by an empty candidate skips the permission gate). NOT decided: which commands ought to need which right (the property defers to pdfcpu's table).",
+		Explanation: "Decides the shape of the permission gate: (R1) the user-password-only success path of setupEncryptionKey returns through handlePermissions; in handlePermissions every success return is preceded by the true edge of hasNeededPermissions(ctx.Cmd, ctx.E) except on the edge where both passwords are empty; (R2) hasNeededPermissions returns false when a non-zero mask has no bit in P, for both maskExtract and maskModify, called with the same mode and with enc.R; each mask function reads the perm table entry for its mode argument, returns 0 only when the entry is absent or its extract/modify field is 0, and chooses between its two layouts by a revision test that is true for revisions 3,4,5,6 and false for revision 2 (evaluated on the comparison's constant and operator; a '>3' or '>=4' boundary is rejected); the two layout constants are non-zero, single-bit and different, and extract/modify masks of one layout differ; (R3) every pkg/api function that assigns a constant command mode to conf.Cmd and then hands conf to a reader does the assignment on every path before the read (an assignment moved inside `if conf == nil {…}` leaves a caller-supplied configuration with a stale mode, so the permission check runs for the wrong command). Extracted constants are recorded in evidence. (R4) the command mode under which the document is read is the one the operation was dispatched for: for every handler of cli.Dispatch (switches of the dispatch* functions and the dispatch table), every constant conf.Cmd stored by pkg/api code reachable from it is one of the handler's own modes, or a mode whose row of the permission table demands at least as much (rows extracted from the table's initialisation), or a listed alias; (R5) = C25.R4 (an owner authenticated by an empty candidate skips the permission gate). (R6) every command mode that pkg/api stores into conf.Cmd — directly or through a mode-picking helper — has a row in the permission table, or is one of the eleven modes frozen as unclassified at the pinned commit: maskExtract/maskModify answer 'nothing needed' for a mode without a row, so a dropped row opens the command. NOT decided: which commands ought to need which right (the property defers to pdfcpu's table).",
 		Rules: []string{
 			"C26.R1 MPT: permission check before success in handlePermissions; user-only path ends in handlePermissions",
 			"C26.R2 TABLE: mask functions, revision boundary, mask constants, hasNeededPermissions",
 			"C26.R4 cross-layer: conf.Cmd stored by the API code of a handler is a mode the handler is dispatched for (or at least as strict)",
 			"C26.R5 = C25.R4",
+			"C26.R6 TABLE: every command mode the API sets has a row in the permission table",
 			"C26.R3 MPT: conf.Cmd is set on every path before the document is read",
 		},
 		Assumptions: []string{"the perm table's classification of commands is pdfcpu's own policy"},
